@@ -24,7 +24,7 @@ type c02Elem struct {
 }
 
 // ("+%61", "a+%2Fb": a plus sign next to an escape - a path is not a query string, the plus stays a plus)
-var c02BindCands = []string{"a", "b", "ab", "1", "12", "a%2Fb", "%61", "%zz", "%2561", "%", "ba", "\n", "a\nb", "\x00", "\xff", "A", "aB", "+%61", "a+%2Fb", "a:b", "a?", "(a)", "a(b", "?:"}
+var c02BindCands = []string{"a", "b", "ab", "1", "12", "a%2Fb", "%61", "%zz", "%2561", "%", "ba", "\n", "a\nb", "\x00", "\xff", "A", "aB", "+%61", "a+%2Fb", "a:b", "a?", "(a)", "a(b", "?:", "ab ", " a", "a "}
 
 func c02Elements(full bool) []c02Elem {
 	var out []c02Elem
@@ -35,7 +35,8 @@ func c02Elements(full bool) []c02Elem {
 		{text: "(v)", cands: []string{"(v)", "v"}, class: "regex-active-literal"},
 	}
 	exprsFull := []string{`a`, `[ab]+`, `a|b`, `(a|b)+`, `a(b)?`, `\d+`, `.*`, `(?i)(a|b)`, // a flag that must stay inside its own expression
-		`[ab()]+`, `(a|[(b])+`, `a\(b`} // parentheses that are no groups: inside a class, escaped
+		`[ab()]+`, `(a|[(b])+`, `a\(b`, // parentheses that are no groups: inside a class, escaped
+		`[ab]+ `, ` a`} // a blank at the end / at the start of the expression is part of it
 	exprsRed := []string{`[ab]+`, `(a|b)+`, `\d+`, `.*`, `[ab()]+`}
 	cls := func(e string) string {
 		if strings.HasPrefix(e, "(?i)") {
